@@ -19,7 +19,10 @@ ErrName(res) == CASE res = "" -> "" [] res = "PANIC" -> "PANIC"
    [] res = "seat_manager: not available" -> "ErrNotAvailable" [] res = "seat_manager: invalid seat" -> "ErrInvalidSeat"
    [] res = "seat_manager: insufficient number of players" -> "ErrInsufficientNumberOfPlayers"
    [] res = "seat_manager: empty seat" -> "ErrEmptySeat" [] OTHER -> "OTHER:" \o res
-Call(ln) == [op |-> ln.op, seat |-> ln.seat, p |-> ln.p, got |-> ln.got, res |-> ErrName(ln.res)]
+\* calls through match.Table are recorded as MT.Join (judged as a Join) and MT.Apply (with positions, left seats, callbacks)
+Call(ln) == [op |-> IF ln.op = "MT.Join" THEN "Join" ELSE ln.op, seat |-> ln.seat, p |-> ln.p, got |-> ln.got, res |-> ErrName(ln.res),
+             left |-> IF ln.op = "MT.Apply" THEN ln.left ELSE <<>>, cbs |-> IF ln.op = "MT.Apply" THEN ln.cbs ELSE <<>>,
+             pos |-> IF ln.op = "MT.Apply" THEN ln.pos ELSE <<>>]
 Outcome(g, o) ==
   CASE o.op = "Join" -> IF o.seat = -1
                         THEN (IF JoinAnyChoices(g) = {} THEN R(g, "ErrNoAvailableSeat")
@@ -29,6 +32,7 @@ Outcome(g, o) ==
     [] o.op = "Reserve" -> OpReserve(g, o.seat)
     [] o.op = "Leave" -> OpLeave(g, o.seat)
     [] o.op = "Next" -> OpNext(g)
+    [] o.op = "MT.Apply" -> OpApplySeatChanges(g, [dealer |-> o.pos[1], sb |-> o.pos[2], bb |-> o.pos[3], left |-> SeqSetS(o.left)])
     [] OTHER -> R(g, "?")
 StepOK(g, o, t) == LET r == Outcome(g, o) IN r.res = o.res /\ (r.res = "PANIC" \/ [r.m EXCEPT !.crashed = FALSE] = t)
 
@@ -40,7 +44,7 @@ Step ==
   /\ l < Len(Trace) /\ l' = l + 1
   /\ LET ln == Trace[l + 1]
          t == IF ln.kind = "conc" THEN m ELSE ToM(ln.state)
-         o == IF ln.kind = "conc" THEN [op |-> "conc", seat |-> -1, p |-> -1, got |-> -1, res |-> ""] ELSE Call(ln)
+         o == IF ln.kind = "conc" THEN [op |-> "conc", seat |-> -1, p |-> -1, got |-> -1, res |-> "", left |-> <<>>, cbs |-> <<>>, pos |-> <<>>] ELSE Call(ln)
      IN IF ln.kind = "conc"
         THEN /\ m' = m /\ h' = h /\ drift' = drift
              /\ viol' = AddViol(viol, l + 1, IF "C18" \in Props
